@@ -106,12 +106,13 @@ def synth_field(spec):
             if d.get("ncvar"):
                 c.nc_set_variable(d["ncvar"])
             c.set_property("units", "m")
-            c.set_data(cfdm.Data(np.arange(n, dtype=d.get("cdtype", "f8")) * 2 + 1))
+            # (offset by the position so that two coordinates of one field are never identical)
+            c.set_data(cfdm.Data(np.arange(n, dtype=d.get("cdtype", "f8")) * 2 + 1 + 100 * i))
             if d.get("bounds"):
                 b = cfdm.Bounds()
                 bb = np.empty((n, 2), dtype=d.get("cdtype", "f8"))
-                bb[:, 0] = np.arange(n) * 2
-                bb[:, 1] = np.arange(n) * 2 + 2
+                bb[:, 0] = np.arange(n) * 2 + 100 * i
+                bb[:, 1] = np.arange(n) * 2 + 2 + 100 * i
                 b.set_data(cfdm.Data(bb))
                 if d.get("bncvar"):
                     b.nc_set_variable(d["bncvar"])
